@@ -39,6 +39,7 @@ TNext == \/ Op("PushBack", PushBackV(E.o, E.v))
          \/ Op("Resize", Resize(E.o, E.n))
          \/ Op("CopyConstruct", CopyConstruct(E.o))
          \/ Op("CopyAssign", CopyAssign(E.o))
+         \/ Op("SelfCopyAssign", SelfCopyAssign(E.o)) \/ Op("SelfMoveAssign", SelfMoveAssign(E.o))
          \/ Op("MoveConstruct", MoveConstruct(E.o))
          \/ Op("MoveAssign", MoveAssign(E.o))
          \/ Op("Destroy", Destroy(E.o))
